@@ -56,7 +56,8 @@ impl Decoder for ZmqCodec {
 
     fn decode(&mut self, src: &mut BytesMut) -> Result<Option<Self::Item>, Self::Error> {
         if src.len() < self.waiting_for {
-            src.reserve(self.waiting_for - src.len());
+            // Do not reserve `waiting_for` bytes up front: the length comes from the
+            // peer and the buffer grows as data actually arrives.
             return Ok(None);
         }
         match self.state {
